@@ -353,6 +353,11 @@ def c13(run, replay=None):
                 doc = "#!/usr/bin/env rash\n#\n" + (head % w) + "#\n" + optsec + "- debug:\n    msg: x\n"
                 for argv in ([], ["-f"], ["x"]):
                     docs.append((doc, argv))
+    # the targeted docopt families of C07-C10 (option tables, dangling values, empty values, dash words ...): no pair may panic
+    for ls, wo, avs in D.family_usages():
+        txt = D.script_text(ls, wo)
+        for av in (avs if run.tier == "thorough" else avs[::3]):
+            docs.append((txt, av))
     heavy = [i for i, (doc, argv) in enumerate(docs) if k16_class(doc)]
     light = [i for i in range(len(docs)) if i not in set(heavy)]
     douts = [None] * len(docs)
